@@ -112,8 +112,10 @@ class Report:
         for rule, msg in self.floor_misses:
             # a missing instance that is itself reported as a violation of the
             # same rule is explained; otherwise the rule lost its anchor
-            if not any(o.rule == rule for o in viol):
+            if not viol:
                 self.undecided(rule, msg)
+            elif not any(o.rule == rule for o in viol):
+                self.extra.setdefault("floor_misses_beside_violations", []).append(f"{rule}: {msg}")
         matched, fresh = [], []
         kmap = {(k["property"], k["key"]): k for k in known}
         for o in viol:
